@@ -1627,17 +1627,113 @@ func (g *gen) utf8Stmt() string {
 	return strings.TrimSuffix(sb.String(), "\n")
 }
 
+// Left-to-right evaluation under side effects: the RIGHT operand of an infix operator changes the variable that is
+// the LEFT operand - inside the arguments of a call (named function, lambda, builtin), inside parentheses, inside an
+// index expression, nested.  The variables are integer parameters and counted-loop variables (the ones the default
+// configuration keeps in registers); the effect is =, :=, ++ or --.  The left operand is the value the variable had.
+func (g *gen) sideEffectStmt() string {
+	g.feat("side-effect-right-operand")
+	var sb strings.Builder
+	w := func(f string, a ...any) { sb.WriteString(fmt.Sprintf(f, a...) + "\n") }
+	id, idf, f := g.fresh("id"), g.fresh("idf"), g.fresh("se")
+	w("%s = x => x", id)
+	w("func %s(x, y) {x + y}", idf)
+	op := func() string { return g.pick("+", "-", "*", "+", "-", "*", "/", "%", "<", "==", ">=", "&", "|", "<<") }
+	// an expression that changes variable v and yields an integer
+	var effect func(v string, d int) string
+	effect = func(v string, d int) string {
+		k := fmt.Sprint(1 + g.n(9))
+		asg := g.pick(v+" = "+k, v+" = "+v+" + "+k, v+" := "+k, v+" = "+v+" * 2")
+		switch g.n(10) {
+		case 0:
+			return id + "(" + asg + ")"
+		case 1:
+			return idf + "(" + asg + ", " + k + ")"
+		case 2:
+			return idf + "(" + k + ", " + asg + ")"
+		case 3:
+			return "(x => x + 1)(" + asg + ")"
+		case 4:
+			return "len([" + asg + ", 0])"
+		case 5:
+			return "(" + asg + ")"
+		case 6:
+			return "[7, 8, 9][(" + asg + ") % 3]"
+		case 7:
+			return "[" + asg + ", 4][0]"
+		case 8:
+			if d > 0 {
+				return id + "(" + k + " " + g.pick("+", "*", "-") + " " + effect(v, d-1) + ")"
+			}
+			return id + "(" + asg + ")"
+		default:
+			return g.pick(id+"(++"+v+")", id+"(--"+v+")", "(++"+v+")", "(--"+v+")", idf+"(++"+v+", "+v+")", "-("+asg+")")
+		}
+	}
+	switch g.n(4) {
+	case 0, 1: // integer parameters
+		g.feat("side-effect-param")
+		np := 1 + g.n(3)
+		ps := []string{"n", "m", "k"}[:np]
+		v := ps[g.n(np)]
+		var exprs []string
+		for i, cnt := 0, 1+g.n(3); i < cnt; i++ {
+			switch g.n(4) {
+			case 0:
+				exprs = append(exprs, v+" "+op()+" "+effect(v, 1))
+			case 1:
+				exprs = append(exprs, v+" "+op()+" ("+ps[g.n(np)]+" "+op()+" "+effect(v, 1)+")")
+			case 2:
+				exprs = append(exprs, v+" "+op()+" "+effect(v, 1)+" "+op()+" "+v)
+			default:
+				exprs = append(exprs, "["+v+" "+op()+" "+effect(v, 1)+", "+v+"]")
+			}
+		}
+		body := "r = [" + strings.Join(exprs, ", ") + "]\n[r, " + strings.Join(ps, ", ") + "]"
+		if g.pct(50) {
+			w("%s = func(%s) {%s}", f, strings.Join(ps, ", "), body)
+		} else {
+			w("func %s(%s) {%s}", f, strings.Join(ps, ", "), body)
+		}
+		args := func() string {
+			var a []string
+			for range ps {
+				a = append(a, fmt.Sprint(g.n(12)))
+			}
+			return strings.Join(a, ", ")
+		}
+		w("println(%s(%s))", f, args())
+		w("println(%s(%s))", f, args())
+	case 2: // counted-loop variables inside a function
+		g.feat("side-effect-loopvar")
+		i := g.fresh("i")
+		form := g.pick(i+" = n", i+" = 1:n", i+" = 0:n + 1")
+		w("%s = func(n) {r = 0\nfor %s {r = r + (%s %s %s)\nif r > 100000 {break}}\n[r, n]}", f, form, i, g.pick("*", "+", "-"), effect(i, 1))
+		w("println(%s(%d), %s(%d))", f, 2+g.n(4), f, 1+g.n(3))
+	default: // counted-loop variable at top level and a plain (non-register) variable as control
+		g.feat("side-effect-loopvar")
+		i, t, pv := g.fresh("i"), g.fresh("t"), g.fresh("pv")
+		w("%s = 0", t)
+		w("for %s = %d {%s = %s + (%s %s %s)}", i, 2+g.n(4), t, t, i, g.pick("*", "+", "-"), effect(i, 1))
+		w("%s = %d", pv, g.n(9))
+		w("println(%s, %s %s %s, %s)", t, pv, op(), effect(pv, 1), pv)
+	}
+	return strings.TrimSuffix(sb.String(), "\n")
+}
+
 func (g *gen) edgeProgram() string {
 	var parts []string
 	n := 1 + g.n(3)
 	for i := 0; i < n; i++ {
 		switch k := g.n(100); {
-		case k < 35:
+		case k < 27:
 			parts = append(parts, g.edgeCmpStmt())
-		case k < 50:
+		case k < 40:
 			parts = append(parts, g.variadicNestStmt())
-		case k < 75:
+		case k < 60:
 			parts = append(parts, g.utf8Stmt())
+		case k < 80:
+			parts = append(parts, g.sideEffectStmt())
 		default:
 			parts = append(parts, g.manyArgsStmt())
 		}
@@ -1851,13 +1947,15 @@ func (g *gen) stmt(nest int, ret ty) string {
 			return g.idiomStmt()
 		}
 		if g.pct(40) && !g.inFunc() && g.inLoop == 0 {
-			switch g.n(4) {
+			switch g.n(5) {
 			case 0:
 				return g.edgeCmpStmt()
 			case 1:
 				return g.manyArgsStmt()
 			case 2:
 				return g.utf8Stmt()
+			case 3:
+				return g.sideEffectStmt()
 			}
 			return g.variadicNestStmt()
 		}
